@@ -47,17 +47,17 @@ Section Capstone.
 
   (** A valuation under which every sent item holds cannot beat a certified bound. *)
   Theorem real_valuation_bounded (rho : nat -> E) (phi : nat -> R)
-      (np : nat) (obj : edict) (tracked : sent) (duals : list dval) (res : list (list Q)) (tau : R) :
-    length duals = length tracked ->
-    certificate_identity obj (combine tracked duals) res tau ->
-    dual_feasible (combine tracked duals) ->
+      (np : nat) (obj : edict) (tracked : sent) (duals : list dval) (entries : list (option (list (list Q)))) (res : list (list Q)) (tau : R) :
+    length duals = length tracked -> length entries = length tracked ->
+    certificate_identity obj (combine (combine tracked duals) entries) res tau ->
+    dual_feasible (combine (combine tracked duals) entries) ->
     rank1sum res np ->
     Forall (item_holds_at rho phi) tracked ->
     evalE rho phi obj <= tau.
   Proof.
-    intros Hlen Hid Hdf Hres Hall.
+    intros Hlen Hlen' Hid Hdf Hres Hall.
     rewrite <- evalGF_gram.
-    apply (weak_duality np obj tracked duals res tau Hlen Hid Hdf Hres).
+    apply (weak_duality np obj tracked duals entries res tau Hlen Hlen' Hid Hdf Hres).
     split; [apply gramOf_sym|]. split; [apply gram_psd|].
     rewrite Forall_forall in *. intros it Hin. apply item_holds_gram, Hall, Hin.
   Qed.
@@ -123,11 +123,11 @@ Section Capstone.
       smallest metric, the performance of the run -- is below the certified bound. *)
   Theorem performance_bounded (rho : nat -> E) (phi : nat -> R) (o np : nat)
       (metrics : list (item * edict)) (others : sent)
-      (duals : list dval) (res : list (list Q)) (tau t : R) :
+      (duals : list dval) (entries : list (option (list (list Q)))) (res : list (list Q)) (tau t : R) :
     let tracked := map fst metrics ++ others in
-    length duals = length tracked ->
-    certificate_identity [(KF o, 1%Q)] (combine tracked duals) res tau ->
-    dual_feasible (combine tracked duals) ->
+    length duals = length tracked -> length entries = length tracked ->
+    certificate_identity [(KF o, 1%Q)] (combine (combine tracked duals) entries) res tau ->
+    dual_feasible (combine (combine tracked duals) entries) ->
     rank1sum res np ->
     Forall (fun im => is_metric_row rho o (fst im) (snd im)) metrics ->
     Forall (fun it => item_mentions o it = false) others ->
@@ -135,12 +135,12 @@ Section Capstone.
     (forall im, In im metrics -> t <= evalE rho phi (snd im)) ->
     t <= tau.
   Proof.
-    intros tracked Hlen Hid Hdf Hres Hmet Hno Hoth Ht.
+    intros tracked Hlen Hlen' Hid Hdf Hres Hmet Hno Hoth Ht.
     pose (phi' := updF phi o t).
     assert (Hobj : evalE rho phi' [(KF o, 1%Q)] = t).
     { cbn [evalE evalK]. unfold phi', updF. rewrite Nat.eqb_refl. unfold Q2R; cbn. lra. }
     rewrite <- Hobj.
-    apply (real_valuation_bounded rho phi' np [(KF o, 1%Q)] tracked duals res tau Hlen Hid Hdf Hres).
+    apply (real_valuation_bounded rho phi' np [(KF o, 1%Q)] tracked duals entries res tau Hlen Hlen' Hid Hdf Hres).
     unfold tracked. apply Forall_app. split.
     - rewrite Forall_forall in *. intros it Hin. apply in_map_iff in Hin as [im [<- Him]].
       destruct (Hmet im Him) as (e & -> & Hm & He). cbn [item_holds_at]. unfold holds. cbn [fst snd].
